@@ -254,6 +254,11 @@ func exitScenarios(big bool) []*Desc {
 	out = append(out, mkd("exit-2-note-action", []string{K1, OU}))
 	out = append(out, mkd("exit-3", []string{AL, K2, OU}))
 	out = append(out, mkd("exit-3-unmapped", []string{AL, X1, X2}))
+	// one sequence key is delivered by another sub-handler of the device (keyboards split their keys over several nodes)
+	ds := mkd("exit-2-across-subhandlers", []string{AL, X2})
+	ds.Mappings[0].SubKeys = map[string]map[string]KeyNote{"Keyboard": {X2: {70, 0}, K3: {60, 0}}}
+	ds.ExitOnSub = []string{X2}
+	out = append(out, ds)
 	if !big {
 		return out
 	}
